@@ -1,6 +1,7 @@
 package kcache
 
 import (
+	"math"
 	"math/rand"
 	"time"
 )
@@ -109,6 +110,12 @@ func (t *_ticker) nextPeriod() time.Duration {
 
 	r := rand.Float64()
 
-	return time.Duration(min + r*(max-min+1))
+	next := min + r*(max-min+1)
+	if next >= float64(math.MaxInt64) {
+		// a period close to the largest Duration: saturate instead of
+		// overflowing into a negative delay (an immediate tick)
+		return time.Duration(math.MaxInt64)
+	}
+	return time.Duration(next)
 
 }
